@@ -1,3 +1,574 @@
 import BarterModel.Model.MockExchange
+/-!
+Helper lemmas for C08 (simulated exchange): the six paths through `open_order`, the state
+invariants (well-formedness, non-negativity), and the refinement invariant `Refines` tying the
+state of the concrete model to the history-only specification `Spec.*`.
+-/
 namespace BarterModel.MockExchange
+
+theorem required_eq (fee : Rat) (r : Req) :
+    orderValue r + orderValue r * fee = Spec.required fee r := by
+  unfold orderValue Spec.required
+  cases r.side <;> simp <;> grind
+
+theorem feesQuote_eq (fee : Rat) (r : Req) : feesQuote fee r = Spec.fees fee r := by
+  unfold feesQuote orderValue Spec.fees
+  cases r.side <;> simp <;> grind
+
+theorem spends_eq (is : List Instr) (r : Req) :
+    Spec.spends is r = (is[r.instr]?).map (fun u => spentAsset u r.side) := by
+  unfold Spec.spends spentAsset
+  cases is[r.instr]? <;> cases r.side <;> simp
+
+/-- The six ways through `open_order`. -/
+theorem openOrder_cases (s : State) (r : Req) :
+    (r.kind ≠ .market ∧ openOrder s r = (s, .rejected .kindUnsupported)) ∨
+    (r.kind = .market ∧ s.instruments[r.instr]? = none ∧
+      openOrder s r = (s, .rejected (.instrumentInvalid r.instr))) ∨
+    (∃ u, r.kind = .market ∧ s.instruments[r.instr]? = some u ∧
+      s.balances[spentAsset u r.side]? = none ∧ openOrder s r = (s, .panic)) ∨
+    (∃ u cur, r.kind = .market ∧ s.instruments[r.instr]? = some u ∧
+      s.balances[spentAsset u r.side]? = some cur ∧ cur.total ≠ cur.free ∧ openOrder s r = (s, .panic)) ∨
+    (∃ u cur, r.kind = .market ∧ s.instruments[r.instr]? = some u ∧
+      s.balances[spentAsset u r.side]? = some cur ∧ cur.total = cur.free ∧
+      ¬ (0 ≤ cur.free - Spec.required s.fee r) ∧
+      openOrder s r = (s, .rejected (.balanceInsufficient (spentAsset u r.side) cur.free (Spec.required s.fee r)))) ∨
+    (∃ u cur, r.kind = .market ∧ s.instruments[r.instr]? = some u ∧
+      s.balances[spentAsset u r.side]? = some cur ∧ cur.total = cur.free ∧
+      0 ≤ cur.free - Spec.required s.fee r ∧
+      openOrder s r =
+        (let new := cur.free - Spec.required s.fee r
+         let b : Bal := ⟨new, new, s.time⟩
+         let tr : Trade := ⟨s.seq, s.seq, r.instr, r.strategy, s.time, r.side, r.price, r.qty, Spec.fees s.fee r⟩
+         ({ s with balances := s.balances.set (spentAsset u r.side) b, seq := s.seq + 1 },
+          .accepted ⟨s.seq, s.time, r.qty, spentAsset u r.side, b, tr⟩))) := by
+  by_cases hk : r.kind = .market
+  · cases hi : s.instruments[r.instr]? with
+    | none => right; left; simp [openOrder, hk, hi]
+    | some u =>
+      cases hb : s.balances[spentAsset u r.side]? with
+      | none => right; right; left; exact ⟨u, hk, rfl, hb, by simp [openOrder, hk, hi, hb]⟩
+      | some cur =>
+        by_cases ht : cur.total = cur.free
+        · by_cases hn : 0 ≤ cur.free - Spec.required s.fee r
+          · right; right; right; right; right
+            refine ⟨u, cur, hk, rfl, hb, ht, hn, ?_⟩
+            simp only [openOrder, hk, hi, hb, ht, required_eq, feesQuote_eq, hn]
+            simp
+          · right; right; right; right; left
+            refine ⟨u, cur, hk, rfl, hb, ht, hn, ?_⟩
+            simp only [openOrder, hk, hi, hb, ht, required_eq, hn]
+            simp
+        · right; right; right; left
+          exact ⟨u, cur, hk, rfl, hb, ht, by simp [openOrder, hk, hi, hb, ht]⟩
+  · left; exact ⟨hk, by simp [openOrder, hk]⟩
+
+/-! ### State invariants -/
+
+/-- The exchange's own internal assumptions (`assert_eq!(total, free)`, `expect(balance)`): never
+violated from a well-formed configuration. -/
+def WF (s : State) : Prop :=
+  (∀ b ∈ s.balances, b.total = b.free) ∧
+  (∀ u ∈ s.instruments, u.base < s.balances.length ∧ u.quote < s.balances.length)
+
+def NonNeg (s : State) : Prop := ∀ b ∈ s.balances, 0 ≤ b.free
+
+/-- Trade ids recorded so far are exactly `0 … seq-1`, in order. -/
+def IdsOk (s : State) : Prop := s.trades.map (·.id) = List.range s.seq
+
+theorem mem_set_cases {α : Type} {l : List α} {i : Nat} {a x : α} (h : x ∈ l.set i a) : x = a ∨ x ∈ l := by
+  rcases List.mem_or_eq_of_mem_set h with h | h
+  · exact Or.inr h
+  · exact Or.inl h
+
+theorem updateTime_ledger (s : State) (t : Int) : ledger (updateTime s t) = ledger s := by
+  simp [ledger, updateTime, List.map_map, Function.comp_def]
+
+theorem updateTime_wf {s : State} (t : Int) (h : WF s) : WF (updateTime s t) := by
+  obtain ⟨h1, h2⟩ := h
+  refine ⟨?_, ?_⟩
+  · intro b hb
+    simp only [updateTime, List.mem_map] at hb
+    obtain ⟨b0, hb0, rfl⟩ := hb
+    exact h1 b0 hb0
+  · intro u hu
+    simpa [updateTime] using h2 u hu
+
+theorem updateTime_nonneg {s : State} (t : Int) (h : NonNeg s) : NonNeg (updateTime s t) := by
+  intro b hb
+  simp only [updateTime, List.mem_map] at hb
+  obtain ⟨b0, hb0, rfl⟩ := hb
+  exact h b0 hb0
+
+theorem spentAsset_lt {s : State} (h : WF s) {r : Req} {u : Instr}
+    (hu : s.instruments[r.instr]? = some u) : spentAsset u r.side < s.balances.length := by
+  have := h.2 u (List.mem_of_getElem? hu)
+  unfold spentAsset; cases r.side <;> simp [this.1, this.2]
+
+/-- From a well-formed state `open_order` cannot panic. -/
+theorem openOrder_no_panic {s : State} (h : WF s) (r : Req) : (openOrder s r).2 ≠ .panic := by
+  rcases openOrder_cases s r with ⟨_, e⟩ | ⟨_, _, e⟩ | ⟨u, _, hu, hb, _⟩ | ⟨u, cur, _, hu, hb, ht, _⟩ |
+    ⟨u, cur, _, _, _, _, _, e⟩ | ⟨u, cur, _, _, _, _, _, e⟩
+  · simp [e]
+  · simp [e]
+  · have := spentAsset_lt h hu
+    rw [List.getElem?_eq_none_iff] at hb; omega
+  · exact absurd (h.1 cur (List.mem_of_getElem? hb)) ht
+  · simp [e]
+  · simp [e]
+
+theorem openOrder_wf {s : State} (h : WF s) (r : Req) : WF (openOrder s r).1 := by
+  rcases openOrder_cases s r with ⟨_, e⟩ | ⟨_, _, e⟩ | ⟨u, _, _, _, e⟩ | ⟨u, cur, _, _, _, _, e⟩ |
+    ⟨u, cur, _, _, _, _, _, e⟩ | ⟨u, cur, _, _, _, _, _, e⟩ <;> rw [e] <;> try exact h
+  refine ⟨?_, ?_⟩
+  · intro b hb
+    rcases mem_set_cases hb with rfl | hb
+    · rfl
+    · exact h.1 b hb
+  · intro u' hu'
+    simpa using h.2 u' hu'
+
+theorem openOrder_nonneg {s : State} (h : NonNeg s) (r : Req) : NonNeg (openOrder s r).1 := by
+  rcases openOrder_cases s r with ⟨_, e⟩ | ⟨_, _, e⟩ | ⟨u, _, _, _, e⟩ | ⟨u, cur, _, _, _, _, e⟩ |
+    ⟨u, cur, _, _, _, _, _, e⟩ | ⟨u, cur, _, _, _, _, hn, e⟩ <;> rw [e] <;> try exact h
+  intro b hb
+  rcases mem_set_cases hb with rfl | hb
+  · exact hn
+  · exact h b hb
+
+/-- `step` on an open-order request, in terms of `openOrder` on the time-updated state. -/
+theorem step_open (s : State) (t : Int) (r : Req) :
+    step s t (.openOrder r) =
+      match openOrder (updateTime s t) r with
+      | (s', .accepted f) => (ackTrade s' f.trade, .order (.accepted f), [.balance f.asset f.balance, .trade f.trade])
+      | (s', res) => (s', .order res, []) := by
+  simp only [step]
+  split <;> simp_all
+
+theorem step_wf {s : State} (h : WF s) (t : Int) (rq : Request) : WF (step s t rq).1 := by
+  cases rq with
+  | openOrder r =>
+    rw [step_open]
+    have := openOrder_wf (updateTime_wf t h) r
+    split
+    · rename_i s' f heq; rw [heq] at this; exact this
+    · rename_i s' res _ heq; rw [heq] at this; exact this
+  | _ => exact updateTime_wf t h
+
+theorem step_nonneg {s : State} (h : NonNeg s) (t : Int) (rq : Request) : NonNeg (step s t rq).1 := by
+  cases rq with
+  | openOrder r =>
+    rw [step_open]
+    have := openOrder_nonneg (updateTime_nonneg t h) r
+    split
+    · rename_i s' f heq; rw [heq] at this; exact this
+    · rename_i s' res _ heq; rw [heq] at this; exact this
+  | _ => exact updateTime_nonneg t h
+
+theorem run_append (s : State) (ops : List (Int × Request)) (op : Int × Request) :
+    run s (ops ++ [op]) = (step (run s ops) op.1 op.2).1 := by
+  simp [run, List.foldl_append]
+
+theorem run_inv {P : State → Prop} (hstep : ∀ s t rq, P s → P (step s t rq).1) {s : State} (h : P s)
+    (ops : List (Int × Request)) : P (run s ops) := by
+  induction ops generalizing s with
+  | nil => exact h
+  | cons op ops ih => exact ih (hstep s op.1 op.2 h)
+
+/-! ### Refinement to the history-only specification -/
+
+/-- State `s` represents the accepted-order list `acc` (newest first) of configuration `c`. -/
+structure Refines (c : Cfg) (s : State) (acc : List Spec.Ev) : Prop where
+  latency : s.latency = c.latency
+  fee : s.fee = c.fee
+  instruments : s.instruments = c.instruments
+  len : s.balances.length = c.init.length
+  bal : ∀ a, (s.balances[a]?).map (fun b => (b.total, b.free)) = (Spec.balance c acc a).map (fun v => (v, v))
+  trades : s.trades = Spec.fills c acc
+  seq : s.seq = acc.length
+
+theorem wf_init {c : Cfg} (h : c.wf = true) : ∀ p ∈ c.init, p.1 = p.2 := by
+  intro p hp
+  simp only [Cfg.wf, Bool.and_eq_true, List.all_eq_true, decide_eq_true_eq] at h
+  exact h.1 p hp
+
+theorem wf_instr {c : Cfg} (h : c.wf = true) :
+    ∀ u ∈ c.instruments, u.base < c.init.length ∧ u.quote < c.init.length := by
+  intro u hu
+  simp only [Cfg.wf, Bool.and_eq_true, List.all_eq_true, decide_eq_true_eq] at h
+  exact h.2 u hu
+
+theorem refines_init {c : Cfg} (h : c.wf = true) : Refines c (init c) [] where
+  latency := rfl
+  fee := rfl
+  instruments := rfl
+  len := by simp [init]
+  bal := by
+    intro a
+    simp only [init, List.getElem?_map, Spec.balance, Spec.debited, Option.map_map]
+    cases hp : c.init[a]? with
+    | none => simp
+    | some p =>
+      have := wf_init h p (List.mem_of_getElem? hp)
+      simp [this]; grind
+  trades := rfl
+  seq := rfl
+
+theorem refines_wf {c : Cfg} {s : State} {acc : List Spec.Ev} (h : Refines c s acc) (hc : c.wf = true) :
+    WF s := by
+  refine ⟨?_, ?_⟩
+  · intro b hb
+    obtain ⟨a, ha, rfl⟩ := List.mem_iff_getElem.mp hb
+    have := h.bal a
+    rw [List.getElem?_eq_getElem ha] at this
+    cases hv : Spec.balance c acc a with
+    | none => simp [hv] at this
+    | some v => simp [hv] at this; rw [this.1, this.2]
+  · intro u hu
+    rw [h.instruments] at hu
+    rw [h.len]
+    exact wf_instr hc u hu
+
+theorem refines_updateTime {c : Cfg} {s : State} {acc : List Spec.Ev} (h : Refines c s acc) (t : Int) :
+    Refines c (updateTime s t) acc where
+  latency := h.latency
+  fee := h.fee
+  instruments := h.instruments
+  len := by simp [updateTime, h.len]
+  bal := by
+    intro a
+    have := h.bal a
+    simp only [updateTime, List.getElem?_map, Option.map_map] at *
+    rw [← this]; rfl
+  trades := h.trades
+  seq := h.seq
+
+theorem updateTime_time {c : Cfg} {s : State} {acc : List Spec.Ev} (h : Refines c s acc) (t : Int) :
+    (updateTime s t).time = exchangeTime c t := by
+  simp [updateTime, exchangeTime, h.latency]
+
+theorem balance_cons (c : Cfg) (e : Spec.Ev) (acc : List Spec.Ev) (a : Nat) :
+    Spec.balance c (e :: acc) a =
+      (Spec.balance c acc a).map fun v =>
+        v - (if Spec.spends c.instruments e.req = some a then Spec.required c.fee e.req else 0) := by
+  simp only [Spec.balance, Spec.debited, Option.map_map]
+  cases c.init[a]? with
+  | none => rfl
+  | some p => simp only [Option.map_some, Function.comp]; congr 1; grind
+
+/-- The heart of the refinement: what `open_order` does in a state representing `acc`, expressed
+with the specification's own vocabulary (the exchange clock reads `s.time`). -/
+theorem refines_open_core {c : Cfg} {s : State} {acc : List Spec.Ev} (h : Refines c s acc)
+    (hc : c.wf = true) (r : Req) :
+    (Spec.fundsOk c acc r = true ∧ ∃ a v,
+        Spec.spends c.instruments r = some a ∧ Spec.balance c acc a = some v ∧
+        (openOrder s r).2 =
+          .accepted
+            { id := acc.length, time := s.time, filled := r.qty, asset := a,
+              balance := ⟨v - Spec.required c.fee r, v - Spec.required c.fee r, s.time⟩,
+              trade := Spec.fillOf c acc.length ⟨s.time, r⟩ } ∧
+        Refines c (ackTrade (openOrder s r).1 (Spec.fillOf c acc.length ⟨s.time, r⟩)) (⟨s.time, r⟩ :: acc)) ∨
+    (Spec.fundsOk c acc r = false ∧
+      ∃ err, openOrder s r = (s, .rejected err)) := by
+  have h1 := h
+  have hwf := refines_wf h1 hc
+  have hnp := openOrder_no_panic hwf r
+  rcases openOrder_cases s r with ⟨hk, e⟩ | ⟨hk, hi, e⟩ | ⟨u, _, _, _, e⟩ | ⟨u, cur, _, _, _, _, e⟩ |
+    ⟨u, cur, hk, hi, hb, ht, hn, e⟩ | ⟨u, cur, hk, hi, hb, ht, hn, e⟩
+  · right
+    refine ⟨?_, _, e⟩
+    cases hkk : r.kind <;> simp_all [Spec.fundsOk]
+  · right
+    refine ⟨?_, _, e⟩
+    rw [h1.instruments] at hi
+    simp [Spec.fundsOk, spends_eq, hi]
+  · rw [e] at hnp; exact absurd rfl hnp
+  · rw [e] at hnp; exact absurd rfl hnp
+  · right
+    refine ⟨?_, _, e⟩
+    have hsp : Spec.spends c.instruments r = some (spentAsset u r.side) := by
+      rw [spends_eq, ← h1.instruments, hi]; rfl
+    have hbal := h1.bal (spentAsset u r.side)
+    rw [hb] at hbal
+    cases hv : Spec.balance c acc (spentAsset u r.side) with
+    | none => simp [hv] at hbal
+    | some v =>
+      simp only [hv, Option.map_some, Option.some.injEq, Prod.mk.injEq] at hbal
+      rw [h1.fee] at hn
+      simp only [Spec.fundsOk, hsp, hv, Bool.and_eq_false_iff, decide_eq_false_iff_not]
+      right; intro hle; apply hn; rw [hbal.2]; grind
+  · left
+    have hsp : Spec.spends c.instruments r = some (spentAsset u r.side) := by
+      rw [spends_eq, ← h1.instruments, hi]; rfl
+    have hbal := h1.bal (spentAsset u r.side)
+    rw [hb] at hbal
+    cases hv : Spec.balance c acc (spentAsset u r.side) with
+    | none => simp [hv] at hbal
+    | some v =>
+      simp only [hv, Option.map_some, Option.some.injEq, Prod.mk.injEq] at hbal
+      have hlt : spentAsset u r.side < s.balances.length := spentAsset_lt hwf hi
+      refine ⟨?_, spentAsset u r.side, v, hsp, hv, ?_, ?_⟩
+      · rw [h1.fee, hbal.2] at hn
+        simp only [Spec.fundsOk, hk, hsp, hv, beq_self_eq_true, Bool.true_and, decide_eq_true_eq]
+        grind
+      · rw [e]
+        simp only [h1.fee, h1.seq, hbal.2, Spec.fillOf]
+      · rw [e]
+        simp only [h1.fee, h1.seq, hbal.2]
+        exact {
+          latency := h1.latency
+          fee := rfl
+          instruments := h1.instruments
+          len := by simp [ackTrade, h1.len]
+          bal := by
+            intro a'
+            rw [balance_cons]
+            simp only [ackTrade, List.getElem?_set]
+            by_cases ha : spentAsset u r.side = a'
+            · subst ha
+              simp [hlt, hsp, hv]
+            · have hne : ¬ (some (spentAsset u r.side) = some a') := by simpa using ha
+              simp only [ha, if_false, hsp, hne]
+              rw [h1.bal a']
+              cases Spec.balance c acc a' <;> simp
+              grind
+          trades := by
+            simp only [ackTrade, h1.trades, Spec.fills]
+          seq := by simp [ackTrade]
+        }
+
+/-- `refines_open_core` after the request loop's clock update. -/
+theorem refines_open {c : Cfg} {s : State} {acc : List Spec.Ev} (h : Refines c s acc)
+    (hc : c.wf = true) (t : Int) (r : Req) :
+    (Spec.fundsOk c acc r = true ∧ ∃ a v,
+        Spec.spends c.instruments r = some a ∧ Spec.balance c acc a = some v ∧
+        (openOrder (updateTime s t) r).2 =
+          .accepted
+            { id := acc.length, time := exchangeTime c t, filled := r.qty, asset := a,
+              balance := ⟨v - Spec.required c.fee r, v - Spec.required c.fee r, exchangeTime c t⟩,
+              trade := Spec.fillOf c acc.length ⟨exchangeTime c t, r⟩ } ∧
+        Refines c (ackTrade (openOrder (updateTime s t) r).1 (Spec.fillOf c acc.length ⟨exchangeTime c t, r⟩)) (⟨exchangeTime c t, r⟩ :: acc)) ∨
+    (Spec.fundsOk c acc r = false ∧
+      ∃ err, openOrder (updateTime s t) r = (updateTime s t, .rejected err)) := by
+  have := refines_open_core (refines_updateTime h t) hc r
+  rw [updateTime_time h t] at this
+  exact this
+
+/-- `open_order` never reads the recorded trades. -/
+theorem openOrder_setTrades (s : State) (r : Req) (x : List Trade) :
+    openOrder { s with trades := x } r =
+      ({ (openOrder s r).1 with trades := x }, (openOrder s r).2) := by
+  rcases openOrder_cases s r with ⟨hk, e⟩ | ⟨hk, hi, e⟩ | ⟨u, hk, hi, hb, e⟩ | ⟨u, cur, hk, hi, hb, ht, e⟩ |
+    ⟨u, cur, hk, hi, hb, ht, hn, e⟩ | ⟨u, cur, hk, hi, hb, ht, hn, e⟩ <;> rw [e]
+  · simp [openOrder, hk]
+  · simp [openOrder, hk, hi]
+  · simp [openOrder, hk, hi, hb]
+  · simp [openOrder, hk, hi, hb, ht]
+  · simp [openOrder, hk, hi, hb, ht, required_eq, hn]
+  · simp [openOrder, hk, hi, hb, ht, required_eq, feesQuote_eq, hn]
+
+/-- Accepted list after one more operation. -/
+def extend (c : Cfg) (acc : List Spec.Ev) : Option Spec.Ev → List Spec.Ev
+  | some e => if Spec.fundsOk c acc e.req then e :: acc else acc
+  | none => acc
+
+theorem refines_step {c : Cfg} {s : State} {acc : List Spec.Ev} (h : Refines c s acc)
+    (hc : c.wf = true) (t : Int) (rq : Request) :
+    Refines c (step s t rq).1 (extend c acc (evOf c (t, rq))) := by
+  cases rq with
+  | openOrder r =>
+    rw [step_open]
+    simp only [evOf, extend]
+    rcases refines_open h hc t r with ⟨hf, a, v, _, _, hres, href⟩ | ⟨hf, err, hres⟩
+    · rw [hf]
+      split
+      · rename_i s' f heq
+        rw [heq] at hres href
+        simp only at hres href
+        injection hres with hres
+        subst hres
+        simpa using href
+      · rename_i s' res hne heq
+        rw [heq] at hres
+        exact absurd hres (hne _)
+    · rw [hf, hres]
+      simpa using refines_updateTime h t
+  | _ => simpa [step, evOf, extend] using refines_updateTime h t
+
+theorem opens_append (c : Cfg) (ops : List (Int × Request)) (op : Int × Request) :
+    Spec.accepted c (opens c (ops ++ [op])) = extend c (Spec.accepted c (opens c ops)) (evOf c op) := by
+  simp only [opens, List.filterMap_append, List.reverse_append, List.filterMap_cons, List.filterMap_nil]
+  cases evOf c op with
+  | none => simp [extend]
+  | some e => simp [extend, Spec.accepted]
+
+/-- Induction principle: histories grow at the end. -/
+theorem snoc_induction {α : Type} {P : List α → Prop} (nil : P [])
+    (snoc : ∀ l a, P l → P (l ++ [a])) (l : List α) : P l := by
+  have : ∀ r : List α, P r.reverse := by
+    intro r
+    induction r with
+    | nil => exact nil
+    | cons a r ih => simpa using snoc _ a ih
+  simpa using this l.reverse
+
+/-- Main invariant: after any operation history from a well-formed configuration the state
+represents the accepted orders of that history. -/
+theorem refines_run {c : Cfg} (hc : c.wf = true) (ops : List (Int × Request)) :
+    Refines c (run (init c) ops) (Spec.accepted c (opens c ops)) := by
+  induction ops using snoc_induction with
+  | nil => simpa [run, opens, Spec.accepted] using refines_init hc
+  | snoc ops op ih =>
+    rw [run_append, opens_append]
+    exact refines_step ih hc op.1 op.2
+
+theorem refines_ledger {c : Cfg} {s : State} {acc : List Spec.Ev} (h : Refines c s acc) :
+    ledger s = Spec.ledger c acc := by
+  apply List.ext_getElem?
+  intro a
+  simp only [ledger, Spec.ledger, List.getElem?_map]
+  rw [h.bal a]
+  by_cases ha : a < c.init.length
+  · rw [List.getElem?_range ha]
+    have : ∃ p, c.init[a]? = some p := ⟨c.init[a], List.getElem?_eq_getElem ha⟩
+    obtain ⟨p, hp⟩ := this
+    simp [Spec.balance, hp]
+  · have h1 : c.init[a]? = none := by rw [List.getElem?_eq_none_iff]; omega
+    have h2 : (List.range c.init.length)[a]? = none := by
+      rw [List.getElem?_eq_none_iff]; simp; omega
+    simp [Spec.balance, h1, h2]
+
+/-- The oneshot answer and the broadcast events of an open-order request are the specification's. -/
+theorem refines_open_response {c : Cfg} {s : State} {acc : List Spec.Ev} (h : Refines c s acc)
+    (hc : c.wf = true) (t : Int) (r : Req) :
+    match Spec.respond c acc ⟨exchangeTime c t, r⟩ with
+    | some (a, b, tr) =>
+      (step s t (.openOrder r)).2 =
+        (.order (.accepted ⟨acc.length, exchangeTime c t, r.qty, a, ⟨b, b, exchangeTime c t⟩, tr⟩),
+         [.balance a ⟨b, b, exchangeTime c t⟩, .trade tr])
+    | none => ∃ err, (step s t (.openOrder r)).2 = (.order (.rejected err), []) := by
+  rw [step_open]
+  rcases refines_open h hc t r with ⟨hf, a, v, hsp, hv, hres, _⟩ | ⟨hf, err, hres⟩
+  · simp only [Spec.respond, hf, if_true, hsp, hv]
+    split
+    · rename_i s' f heq
+      rw [heq] at hres
+      simp only at hres
+      injection hres with hres
+      subst hres
+      rfl
+    · rename_i s' res hne heq
+      rw [heq] at hres
+      exact absurd hres (hne _)
+  · simp only [Spec.respond, hf]
+    rw [hres]
+    exact ⟨err, rfl⟩
+
+/-! ### `step` on an open-order request, by outcome -/
+
+theorem step_open_accepted {s : State} {t : Int} {r : Req} {f : Fill}
+    (h : (openOrder (updateTime s t) r).2 = .accepted f) :
+    step s t (.openOrder r) =
+      (ackTrade (openOrder (updateTime s t) r).1 f.trade, .order (.accepted f),
+       [.balance f.asset f.balance, .trade f.trade]) := by
+  rw [step_open]
+  split
+  · rename_i s' f' heq
+    rw [heq] at h; simp only at h; injection h with h; subst h
+    simp [heq]
+  · rename_i s' res hne heq
+    rw [heq] at h; exact absurd h (hne _)
+
+theorem step_open_not_accepted {s : State} {t : Int} {r : Req}
+    (h : ∀ f, (openOrder (updateTime s t) r).2 ≠ .accepted f) :
+    step s t (.openOrder r) =
+      ((openOrder (updateTime s t) r).1, .order (openOrder (updateTime s t) r).2, []) := by
+  rw [step_open]
+  split
+  · rename_i s' f' heq
+    exact absurd (by rw [heq]) (h f')
+  · rename_i s' res hne heq
+    simp [heq]
+
+theorem step_open_resp (s : State) (t : Int) (r : Req) :
+    (step s t (.openOrder r)).2.1 = .order (openOrder (updateTime s t) r).2 := by
+  by_cases h : ∃ f, (openOrder (updateTime s t) r).2 = .accepted f
+  · obtain ⟨f, hf⟩ := h
+    rw [step_open_accepted hf, hf]
+  · rw [step_open_not_accepted (fun f hf => h ⟨f, hf⟩)]
+
+theorem updateTime_getElem? (s : State) (t : Int) (a : Nat) :
+    (updateTime s t).balances[a]? = (s.balances[a]?).map fun b => { b with time := (updateTime s t).time } := by
+  simp [updateTime]
+
+/-! ### The direct path: `open_order` called on the struct, no request loop
+
+Nobody calls `ack_trade` and the exchange clock never moves, so the recorded trades stay as they
+were; balances, the id counter and the answers still follow the specification. -/
+
+/-- A sequence of direct `open_order` calls, state only. -/
+def runDirect (s : State) (rs : List Req) : State := rs.foldl (fun s r => (openOrder s r).1) s
+
+/-- `s` represents `acc` except that its fills were never acknowledged. -/
+def RefinesD (c : Cfg) (s : State) (acc : List Spec.Ev) : Prop :=
+  Refines c { s with trades := Spec.fills c acc } acc
+
+theorem refinesD_open {c : Cfg} {s : State} {acc : List Spec.Ev} (h : RefinesD c s acc)
+    (hc : c.wf = true) (r : Req) :
+    (Spec.fundsOk c acc r = true ∧ ∃ a v,
+        Spec.spends c.instruments r = some a ∧ Spec.balance c acc a = some v ∧
+        (openOrder s r).2 =
+          .accepted
+            { id := acc.length, time := s.time, filled := r.qty, asset := a,
+              balance := ⟨v - Spec.required c.fee r, v - Spec.required c.fee r, s.time⟩,
+              trade := Spec.fillOf c acc.length ⟨s.time, r⟩ } ∧
+        RefinesD c (openOrder s r).1 (⟨s.time, r⟩ :: acc)) ∨
+    (Spec.fundsOk c acc r = false ∧ ∃ err, openOrder s r = (s, .rejected err)) := by
+  rcases refines_open_core h hc r with ⟨hf, a, v, hsp, hv, hres, href⟩ | ⟨hf, err, hres⟩
+  · left
+    rw [openOrder_setTrades] at hres href
+    refine ⟨hf, a, v, hsp, hv, hres, ?_⟩
+    simpa [RefinesD, ackTrade, Spec.fills] using href
+  · right
+    rw [openOrder_setTrades] at hres
+    refine ⟨hf, err, ?_⟩
+    have h2 : (openOrder s r).2 = .rejected err := (Prod.mk.inj hres).2
+    rcases openOrder_cases s r with ⟨_, e⟩ | ⟨_, _, e⟩ | ⟨u, _, _, _, e⟩ | ⟨u, cur, _, _, _, _, e⟩ |
+      ⟨u, cur, _, _, _, _, _, e⟩ | ⟨u, cur, _, _, _, _, _, e⟩ <;> rw [e] at h2 ⊢ <;> cases h2 <;> rfl
+
+theorem openOrder_time_trades (s : State) (r : Req) :
+    (openOrder s r).1.time = s.time ∧ (openOrder s r).1.trades = s.trades := by
+  rcases openOrder_cases s r with ⟨_, e⟩ | ⟨_, _, e⟩ | ⟨u, _, _, _, e⟩ | ⟨u, cur, _, _, _, _, e⟩ |
+    ⟨u, cur, _, _, _, _, _, e⟩ | ⟨u, cur, _, _, _, _, _, e⟩ <;> rw [e] <;> exact ⟨rfl, rfl⟩
+
+theorem runDirect_append (s : State) (rs : List Req) (r : Req) :
+    runDirect s (rs ++ [r]) = (openOrder (runDirect s rs) r).1 := by
+  simp [runDirect, List.foldl_append]
+
+/-- The events of a direct call sequence: the exchange clock stays at 0. Newest first. -/
+def opensDirect (rs : List Req) : List Spec.Ev := (rs.map fun r => (⟨0, r⟩ : Spec.Ev)).reverse
+
+theorem refinesD_run {c : Cfg} (hc : c.wf = true) (rs : List Req) :
+    RefinesD c (runDirect (init c) rs) (Spec.accepted c (opensDirect rs)) ∧
+    (runDirect (init c) rs).time = 0 ∧ (runDirect (init c) rs).trades = [] := by
+  induction rs using snoc_induction with
+  | nil => exact ⟨by simpa [RefinesD, runDirect, opensDirect, Spec.accepted, Spec.fills, init] using refines_init hc, rfl, rfl⟩
+  | snoc rs r ih =>
+    obtain ⟨ih1, ih2, ih3⟩ := ih
+    rw [runDirect_append]
+    have hacc : Spec.accepted c (opensDirect (rs ++ [r])) =
+        extend c (Spec.accepted c (opensDirect rs)) (some ⟨0, r⟩) := by
+      simp only [opensDirect, List.map_append, List.reverse_append, List.map_cons, List.map_nil,
+        List.reverse_cons, List.reverse_nil, List.nil_append, List.cons_append]
+      rfl
+    rw [hacc]
+    simp only [extend]
+    have htt := openOrder_time_trades (runDirect (init c) rs) r
+    refine ⟨?_, by rw [htt.1]; exact ih2, by rw [htt.2]; exact ih3⟩
+    rcases refinesD_open ih1 hc r with ⟨hf, a, v, _, _, hres, href⟩ | ⟨hf, err, hres⟩
+    · rw [hf, ih2] at *
+      simpa using href
+    · rw [hf, hres]
+      simpa using ih1
+
 end BarterModel.MockExchange
